@@ -11,6 +11,7 @@
 #[path = "../../c15/src/gcno.rs"]
 mod gcno;
 mod multiblock;
+mod records;
 use corrlib::*;
 use gcno::*;
 use serde_json::{json, Value};
@@ -108,7 +109,14 @@ impl<'a> PGen<'a> {
         match self.rng.below(5) {
             0 => "g++;".to_string(),
             1 => format!("r = (r + {}) % 1000;", e),
-            4 if self.one_line == 0 => format!("r = (r +\n    {}) % 1000;", e),
+            4 if self.one_line == 0 => match self.rng.below(4) {
+                // statements spread over several lines whose code comes back to the first line:
+                // the block lists that line twice (A, B, A) and llvm-cov counts it once per listing
+                0 => format!("r = (r +\n    {}) % 1000;", e),
+                1 => format!("r = mix3(r,\n    mix3({}, 2, 0),\n    1) % 1000;", e),
+                2 => format!("r = mix3(r,\n    {},\n    g) % 1000;", e),
+                _ => format!("r = (r *\n    3 +\n    {}) % 997;", e),
+            },
             2 => format!("r = ({} * 3 + r) % 997;", e),
             _ => format!("r += {} > 2;", e),
         }
@@ -303,9 +311,9 @@ const CNT_MACRO: &str = "#define CNT(v, p, q) do { if ((v) & 1u) (p)++; else (q)
 const CIRCUIT_PROG: &str = "#include <stdlib.h>\nint g;\n#define CNT(v, p, q) do { if ((v) & 1u) (p)++; else (q)++; (v) >>= 1; } while (v)\nint f0(int a, int b) {\n  int r = 0;\n  { unsigned v = (unsigned)(a * 7 + b + 3) & 63u; int p = 0, q = 0; do { if (v & 1u) p++; else q++; v >>= 1; } while (v); r = (r + p * 3 + q) % 1000; } g++;\n  { unsigned v = (unsigned)(a * 5 + b) & 31u; int p = 0, q = 0; CNT(v, p, q); r = (r + p + 2 * q) % 1000; } g++;\n  for (int i = 0; i < (a % 5) + 2; i++) { if ((i + b) & 1) r = (r + 2) % 1000; else g++; } r = (r + 1) % 1000;\n  { int w = (a % 4) + 3; while (w-- > 0) { if ((w + b) % 3 == 0) continue; if (w & 1) g++; else r = (r + w) % 1000; } } g++;\n  return r;\n}\nint f1(int a, int b) {\n  int r = 0;\n  for (int i = 0; i < (a % 3) + 2; i++) for (int j = 0; j < (b % 3) + 1; j++) { if ((i ^ j) & 1) r = (r + 1) % 1000; else g++; } g++;\n  for (int i = 0; i < (a % 4) + 3; i++) { switch ((i + b) % 3) { case 0: r = (r + 1) % 1000; break; case 1: g++; default: r = (r + 2) % 1000; } } g++;\n  { int d = 0; do { if ((d + a) & 1) { g++; if (d > 1) break; } else r = (r + d) % 1000; } while (++d < (b % 4) + 2); } r = (r + 1) % 1000;\n  for (int i = 0; i < (a % 3) + 2; i++) { int w = i + 1; while (w-- > 0) { if ((w + b) & 1) g++; else r = (r + 1) % 1000; } } g++;\n  { int n = (a % 4) + 2; switch (b & 1) { case 0: do { r = (r + 1) % 1000; case 1: g++; } while (--n > 0); } } g++;\n  { int n = (b % 4) + 2; if (a & 1) goto M1; T1: r = (r + 1) % 1000; M1: g++; if (--n > 0) goto T1; } g++;\n  { int n = (a % 3) + 2, m = (b % 3) + 2; if (b & 2) goto B2; A2: r = (r + 1) % 1000; if (n-- > 0) goto B2; goto E2; B2: g++; if (m-- > 0) goto A2; if (n-- > 0) goto B2; E2: g++; } g++;\n  { int n = (a % 3) + 3; switch ((b + 1) % 3) { case 0: while (n-- > 0) { r = (r + 1) % 1000; case 1: if (n & 1) g++; else { case 2: r = (r + 2) % 1000; } } } } g++;\n  return r;\n}\nint main(int argc, char **argv) {\n  int a = argc > 1 ? atoi(argv[1]) : 0; int b = argc > 2 ? atoi(argv[2]) : 0;\n  int r = f0(a, b); if (a != 4) r += f1(b, a); for (int i = 0; i < 3; i++) { if ((i + a) & 1) r += f0(i, b) & 1; else g++; } g++;\n  return (r + g) & 1;\n}\n";
 
 
-struct Program {
-    main_c: String,
-    inc_h: String,
+pub struct Program {
+    pub main_c: String,
+    pub inc_h: String,
 }
 
 /// One-line function bodies with labels at random statements and fuel-bounded guarded gotos to
@@ -385,6 +393,7 @@ fn gen_program(rng: &mut Rng) -> Program {
     g.nl("#include <stdlib.h>");
     g.nl("int g;");
     g.nl(CNT_MACRO);
+    g.nl("static int mix3(int a, int b, int c) { return (a + b + c) & 1023; }");
     g.nl("#include \"inc.h\"");
     for f in 0..g.nfun {
         if g.rng.chance(1, 2) {
@@ -716,6 +725,7 @@ fn matches_irreducible(
     ours: &BTreeMap<String, GcovFile>,
     theirs: &BTreeMap<String, GcovFile>,
     fns: &[FnDump],
+    nets: Option<&[records::FnNet]>,
 ) -> bool {
     if ours.keys().ne(theirs.keys()) {
         return false;
@@ -739,6 +749,30 @@ fn matches_irreducible(
             if !(*n < t.lines[l] && fns.iter().any(|f| &f.file == k && f.line_irreducible(*l))) {
                 return false;
             }
+            match nets {
+                // llvm-cov's number must be exactly what its cycle cancelling (depth-first search in
+                // the successor order of the notes) gives on the arc counts grcov recovered
+                Some(ns) => {
+                    if records::llvm_count(ns, k.as_bytes(), *l) != Some(t.lines[l]) {
+                        return false;
+                    }
+                }
+                // the arcs cannot be identified (parallel arcs with different counts): the
+                // difference is at least bounded by the flow inside the line's blocks
+                None => {
+                    let inside: u128 = fns
+                        .iter()
+                        .filter(|f| &f.file == k)
+                        .map(|f| {
+                            let set: Vec<usize> = (0..f.blocks.len()).filter(|&i| f.blocks[i].lines.contains(l)).collect();
+                            set.iter().map(|&b| f.blocks[b].succ.iter().filter(|x| set.contains(&x.0)).map(|x| x.1 as u128).sum::<u128>()).sum::<u128>()
+                        })
+                        .sum();
+                    if (t.lines[l] - *n) as u128 > inside {
+                        return false;
+                    }
+                }
+            }
         }
     }
     any
@@ -748,8 +782,9 @@ fn classify(
     ours: &BTreeMap<String, GcovFile>,
     theirs: &BTreeMap<String, GcovFile>,
     fns: &[FnDump],
+    nets: Option<&[records::FnNet]>,
 ) -> Option<&'static str> {
-    if matches_irreducible(ours, theirs, fns) {
+    if matches_irreducible(ours, theirs, fns, nets) {
         Some("C08-irreducible-line-cycles")
     } else if matches_inflow_outflow(ours, theirs, fns) {
         Some("C08-single-block-line-outflow")
@@ -818,8 +853,10 @@ fn run_in(dir: &Path, prog: &str, args: &[String]) -> bool {
     }
 }
 
-struct Compiled {
-    dir: PathBuf,
+pub struct Compiled {
+    pub dir: PathBuf,
+    /// the `-coverage-version` the program was compiled with (None = clang's default, 408*)
+    pub version: Option<String>,
     gcno: Vec<u8>,
     /// one gcda per run
     singles: Vec<Vec<u8>>,
@@ -829,12 +866,24 @@ struct Compiled {
 }
 
 fn build_and_run(dir: &Path, p: &Program, profiles: &[Vec<String>]) -> Result<Compiled, String> {
+    build_and_run_v(dir, p, profiles, None)
+}
+
+/// the gcov format versions grcov accepts as LLVM output, as clang spells them
+pub const COVERAGE_VERSIONS: &[&str] = &["402*", "407*", "408*", "800*", "A93*", "B01*"];
+
+fn build_and_run_v(dir: &Path, p: &Program, profiles: &[Vec<String>], version: Option<&str>) -> Result<Compiled, String> {
     let _ = std::fs::remove_dir_all(dir);
     std::fs::create_dir_all(dir).map_err(|e| e.to_string())?;
     std::fs::write(dir.join("prog.c"), &p.main_c).map_err(|e| e.to_string())?;
     std::fs::write(dir.join("inc.h"), &p.inc_h).map_err(|e| e.to_string())?;
+    let mut args: Vec<String> = ["--coverage", "-O0", "-w", "prog.c", "-o", "prog"].iter().map(|s| s.to_string()).collect();
+    if let Some(v) = version {
+        args.push("-Xclang".into());
+        args.push(format!("-coverage-version={}", v));
+    }
     let out = Command::new("clang-14")
-        .args(["--coverage", "-O0", "-w", "prog.c", "-o", "prog"])
+        .args(&args)
         .current_dir(dir)
         .output()
         .map_err(|e| format!("clang-14: {}", e))?;
@@ -884,7 +933,7 @@ fn build_and_run(dir: &Path, p: &Program, profiles: &[Vec<String>]) -> Result<Co
             None => return Err(format!("cannot read {}", n.display())),
         }
     }
-    Ok(Compiled { dir: dir.to_path_buf(), gcno, singles, merged, gcov })
+    Ok(Compiled { dir: dir.to_path_buf(), version: version.map(|v| v.to_string()), gcno, singles, merged, gcov })
 }
 
 /// minimised witness of finding C08-single-block-line-outflow (replayed first on every run)
@@ -942,8 +991,11 @@ fn compiled_stream(rep: &mut Report, rng: &mut Rng, reqs: &mut Vec<String>, pend
             })
             .collect();
         let dir = rep.workdir.join(format!("p{}", i));
-        let case = json!({"op": "program", "prog_c": p.main_c, "inc_h": p.inc_h, "profiles": profiles});
-        let c = match build_and_run(&dir, &p, &profiles) {
+        // the gcov format versions grcov accepts as LLVM output: clang's default and the six spellings
+        let ver: Option<&str> = if rng.chance(1, 4) { None } else { Some(*rng.pick(COVERAGE_VERSIONS)) };
+        rep.count(&format!("program.coverage_version={}", ver.unwrap_or("default")));
+        let case = json!({"op": "program", "prog_c": p.main_c, "inc_h": p.inc_h, "profiles": profiles, "coverage_version": ver});
+        let c = match build_and_run_v(&dir, &p, &profiles, ver) {
             Ok(c) => c,
             Err(e) => {
                 rep.count("program.skipped");
@@ -1010,14 +1062,76 @@ fn check_compiled(
                 if *what == "per-run gcda files" {
                     count_line_shapes(rep, "program", &ours, &c.gcov, &fns);
                 }
+                let notes = decode_gcno(&c.gcno);
+                let nets = notes.as_ref().and_then(|n| records::nets(n, &fns));
+                // the instrumented lines over the LINES records (Props/C08Records.lean): llvm-cov
+                // reports exactly the listed lines; grcov the listed lines that pass the range test
+                let mut dropped = records::Listed::new();
+                if let Some(n) = &notes {
+                    let to_sets = |m: &BTreeMap<String, GcovFile>| -> records::Listed {
+                        m.iter().filter(|(_, f)| !f.lines.is_empty()).map(|(k, f)| (k.as_bytes().to_vec(), f.lines.keys().copied().collect())).collect()
+                    };
+                    if *what == "per-run gcda files" {
+                        rep.count("program.listed.checked");
+                        if to_sets(&c.gcov) != records::listed(n, false) {
+                            let mut cj = case.clone();
+                            cj["variant"] = json!(what);
+                            rep.fail("oracle", None, format!("llvm-cov gcov's instrumented lines are not the lines the LINES records list (reference semantics `listedRef`): {:?} / {:?}",
+                                to_sets(&c.gcov), records::listed(n, false)), cj);
+                        }
+                        if to_sets(&ours) != records::listed_kept(n) {
+                            let mut cj = case.clone();
+                            cj["variant"] = json!(what);
+                            rep.fail("oracle", None, format!("Gcno::compute's instrumented lines are not the listed lines within the functions' ranges (`listedKept`): {:?} / {:?}",
+                                to_sets(&ours), records::listed_kept(n)), cj);
+                        }
+                    }
+                    dropped = records::range_dropped(n);
+                }
                 if let Some(d) = diff_gcov(&ours, &c.gcov) {
                     let mut cj = case.clone();
                     cj["variant"] = json!(what);
-                    let finding = classify(&ours, &c.gcov, &fns);
-                    if let Some(f) = finding {
-                        rep.count(&format!("program.finding.{}", f));
+                    // format >= 8: the lines `read_lines` drops because they lie outside the function's
+                    // [start_line, end_line] (finding C08-gcno8-line-range-filter) – matched precisely:
+                    // the lines only llvm-cov has are exactly the listed lines that fail the range test
+                    let mut theirs = c.gcov.clone();
+                    let mut removed: Vec<(String, u32)> = Vec::new();
+                    let v80 = notes.as_ref().map(|n| n.version >= 80).unwrap_or(false);
+                    if v80 {
+                        for (k, ls) in &dropped {
+                            let key = String::from_utf8_lossy(k).to_string();
+                            if let Some(f) = theirs.get_mut(&key) {
+                                for l in ls {
+                                    if f.lines.contains_key(l) && !ours.get(&key).map(|o| o.lines.contains_key(l)).unwrap_or(false) {
+                                        f.lines.remove(l);
+                                        removed.push((key.clone(), *l));
+                                    }
+                                }
+                            }
+                        }
                     }
-                    rep.fail("oracle", finding, format!("Gcno::compute ({}) differs from llvm-cov gcov: {}", what, d), cj);
+                    if !removed.is_empty() {
+                        rep.count("program.finding.C08-gcno8-line-range-filter");
+                        rep.count_n("program.range_filter.lines_dropped", removed.len() as u64);
+                        rep.fail(
+                            "oracle",
+                            Some("C08-gcno8-line-range-filter"),
+                            format!("Gcno::compute ({}) differs from llvm-cov gcov: gcno format {} – lines listed by the notes but outside their function's [start_line, end_line] are missing: {:?}",
+                                what, c.version.clone().unwrap_or_default(), removed.iter().take(12).collect::<Vec<_>>()),
+                            cj.clone(),
+                        );
+                    }
+                    if let Some(d2) = diff_gcov(&ours, &theirs) {
+                        let finding = classify(&ours, &theirs, &fns, nets.as_deref());
+                        if let Some(f) = finding {
+                            rep.count(&format!("program.finding.{}", f));
+                            if f == "C08-irreducible-line-cycles" {
+                                rep.count(if nets.is_some() { "program.irreducible.llvm_cycle_cancelling_reproduced" } else { "program.irreducible.bounded_only" });
+                            }
+                        }
+                        let d = if removed.is_empty() { d } else { d2 };
+                        rep.fail("oracle", finding, format!("Gcno::compute ({}) differs from llvm-cov gcov: {}", what, d), cj);
+                    }
                 }
                 if sample {
                     rep.sample(json!({"program_lines": case["prog_c"].as_str().unwrap_or("").lines().count(),
@@ -1044,6 +1158,9 @@ fn check_compiled(
                 cj["variant"] = json!(what);
                 pend.push((show_compute(&r), cj, "compute".into()));
                 if *what == "per-run gcda files" {
+                    let (lq, lw) = records::listed_req(&notes);
+                    reqs.push(lq);
+                    pend.push((lw, case.clone(), "c08.listed".into()));
                     reqs.push(format!("tree {}", notes_text(&notes)));
                     pend.push(("tree".into(), case.clone(), "tree".into()));
                     reqs.push(state_req(&notes, &refs));
@@ -1382,7 +1499,11 @@ fn synthetic_llvm_cov_stream(rep: &mut Report, rng: &mut Rng, reqs: &mut Vec<Str
                 let fd = run_dump(&gcno, &[gbytes.clone()]).map(|d| dump_functions(&d)).unwrap_or_default();
                 count_line_shapes(rep, "synthetic_llvm_cov", &ours, &theirs, &fd);
                 if let Some(d) = diff_gcov(&ours, &theirs) {
-                    let finding = classify(&ours, &theirs, &fd);
+                    let ns = records::nets(&notes, &fd);
+                    if ns.is_none() {
+                        rep.count("synthetic_llvm_cov.arcs_not_identified");
+                    }
+                    let finding = classify(&ours, &theirs, &fd, ns.as_deref());
                     if let Some(f) = finding {
                         rep.count(&format!("synthetic_llvm_cov.finding.{}", f));
                     }
@@ -1481,6 +1602,7 @@ pub fn run(rep: &mut Report) {
         std::process::exit(2);
     }
     multiblock::run(rep);
+    records::run(rep);
 }
 
 pub fn replay(rep: &mut Report, case: &Value) {
@@ -1499,7 +1621,7 @@ pub fn replay(rep: &mut Report, case: &Value) {
                 })
                 .unwrap_or_default();
             let dir = rep.workdir.join("replay");
-            match build_and_run(&dir, &p, &profiles) {
+            match build_and_run_v(&dir, &p, &profiles, case["coverage_version"].as_str()) {
                 Ok(c) => {
                     let mut reqs = Vec::new();
                     let mut pend = Vec::new();
@@ -1566,7 +1688,8 @@ pub fn replay(rep: &mut Report, case: &Value) {
                         }
                         if let Some(d) = diff_gcov(&ours, &theirs) {
                             let fd = run_dump(&gcno, &[gcda.clone()]).map(|d| dump_functions(&d)).unwrap_or_default();
-                            let finding = classify(&ours, &theirs, &fd);
+                            let ns = decode_gcno(&gcno).and_then(|n| records::nets(&n, &fd));
+                            let finding = classify(&ours, &theirs, &fd, ns.as_deref());
                             rep.fail("oracle", finding, format!("Gcno::compute differs from llvm-cov gcov on generated notes: {}", d), case.clone());
                         }
                     }
@@ -1575,6 +1698,7 @@ pub fn replay(rep: &mut Report, case: &Value) {
             }
         }
         op if op.starts_with("mb.") => multiblock::replay(rep, case),
+        op if op.starts_with("rec.") => records::replay(rep, case),
         _ => rep.notes.push("corpus cases are re-run by the normal check".into()),
     }
 }
